@@ -328,6 +328,29 @@ def rule_remove(ctx, ci):
             got = [(x.attrs["name"], x.attrs["octave"]) for x in paths[0].interp.args[0].attrs["notes"]]
             ok = got == want
         ctx.check(ok, R, "remove_note[Note pitch %d]" % qp, fi.where(), "remove_note(<Note>)", "leaves %s, expected %s" % (got, want))
+    # removal of a whole container: another one with the same notes, a sub-container, and the container itself ('c - c')
+    frs = repo.find_method(ci, "remove_notes")
+    for label in ("equal container", "sub-container", "itself"):
+        def mk4(label=label):
+            ns = build()
+            c = AObj(ci, {"notes": ns}, name="c")
+            if label == "itself":
+                return [c, c]
+            other = build() if label == "equal container" else build()[1:4]
+            return [c, AObj(ci, {"notes": other}, name="other")]
+        try:
+            paths = run_method(repo, frs, mk4, summaries=pitch_compare_summaries())
+        except CannotDecide as e:
+            raise AnalysisError("remove_notes(<%s>): %s" % (label, e))
+        gone = {p_ for n, o, p_ in (spec if label != "sub-container" else spec[1:4])}
+        want = [(n, o) for n, o, p_ in spec if p_ not in gone]
+        ok = len(paths) == 1 and paths[0].kind == "return"
+        got = None
+        if ok:
+            got = [(x.attrs["name"], x.attrs["octave"]) for x in paths[0].interp.args[0].attrs["notes"]]
+            ok = got == want
+        ctx.check(ok, R, "remove_notes[%s]" % label, frs.where(), "remove_notes(<%s>)" % label,
+                  "leaves %s, the set model predicts %s%s" % (got, want, " (the operand is walked while it shrinks)" if label == "itself" else ""))
     fd = repo.find_method(ci, "remove_duplicate_notes")
 
     def mk3():
